@@ -118,6 +118,8 @@ type coordState struct {
 	extra    []ReplayFile
 	maxRSSkb int64
 	redo     [][2]int
+	retries  map[int]int
+	notes    []string
 	runSigs  map[uint64]uint64
 }
 
@@ -332,6 +334,9 @@ func CoordMain(propID, tier string, seed uint64, runsOverride int) int {
 		// determinism self-test runs are not property checks: they leave the evidence files alone
 	} else if err := writeEvidence(p, cs, tier, seed, wall, len(violLines)); err != nil {
 		cs.harness = append(cs.harness, "evidence: "+err.Error())
+	}
+	for _, n := range cs.notes {
+		fmt.Printf("NOTE: %s\n", n)
 	}
 	if len(cs.harness) > 0 {
 		seenH := map[string]bool{}
@@ -591,7 +596,19 @@ func handleHang(cs *coordState, p *Prop, seed uint64, w *worker, from, to int, h
 		cs.extra = append(cs.extra, ReplayFile{Property: p.ID, Seed: seed, RunIndex: idx, Kind: "hang",
 			Violation: Violation{Class: "hang", Msg: fmt.Sprintf("run %d exceeded the wall budget %v, and 1x/2x/4x of it in three fresh processes", idx, hang)}})
 	} else {
-		cs.harness = append(cs.harness, fmt.Sprintf("run %d exceeded wall budget once but not reproducibly (%d/3): environment", idx, hung))
+		// not a hang of the code under test: the machine was busy (other jobs, a long collection). The run is executed
+		// again with the rest of its batch; only a run that keeps overrunning without ever reproducing in fresh processes
+		// is reported as trouble
+		if cs.retries == nil {
+			cs.retries = map[int]int{}
+		}
+		cs.retries[idx]++
+		if cs.retries[idx] <= 2 {
+			cs.notes = append(cs.notes, fmt.Sprintf("run %d exceeded the wall budget once, not reproduced in fresh processes (%d/3): its batch [%d,%d) is executed again", idx, hung, from, to))
+			cs.redo = append(cs.redo, [2]int{from, to}) // a batch reports at its end: nothing of it has been counted yet
+			return
+		}
+		cs.harness = append(cs.harness, fmt.Sprintf("run %d exceeded wall budget repeatedly but never reproducibly (%d/3): environment", idx, hung))
 	}
 	if idx+1 < to {
 		cs.redo = append(cs.redo, [2]int{idx + 1, to})
